@@ -205,6 +205,10 @@ let the_oracles : oracles = {
 }
 
 (* ---------- structured inputs ---------- *)
+let rd_xcert () : xcert =
+  let s = rd_bytes () in let i = rd_bytes () in let nb = rd_int () in let na = rd_int () in
+  let ca = rd_bool () in let k = rd_int () in let sb = rd_int () in
+  { x_subject = s; x_issuer = i; x_not_before = nb; x_not_after = na; x_is_ca = ca; x_key = k; x_signed_by = sb }
 let rd_origin () : origin_exp =
   match next () with
   | "S" -> OSingle (rd_str ()) | "M" -> OMany (rd_list rd_str) | t -> failwith ("origin " ^ t)
@@ -359,6 +363,7 @@ let dispatch (cmd) =
   | "certinfo" -> pr_res pr_cert_info (parse_cert_info (rd_bytes ()))
   | "pubarea" -> pr_res pr_pub_area (parse_pub_area (rd_bytes ()))
   | "tsok" -> let now = rd_int () in let ts = rd_int () in pr_bool (timestamp_ok now ts)
+  | "chainspec" -> let now = rd_int () in let xs = rd_list rd_xcert in let rs = rd_list rd_xcert in pr_bool (chain_acceptable_b now xs rs)
   | "genreg" -> let a = rd_reg_args () in let n = rd_nat () in let draws = rd_list rd_bytes in
       pr_res (fun (o, n2) -> pr_creation_options o ^ " " ^ string_of_int (int_of_nat n2)) (gen_reg (draw_of draws) a (nat_of_int n))
   | "genauth" -> let a = rd_auth_args () in let n = rd_nat () in let draws = rd_list rd_bytes in
